@@ -67,17 +67,28 @@ def gen_cases(ctx, n, maxdim):
                     vecs.append(v)
             c["lowrank"] = {"vals": [r.choice([0.25, 4.0, 9.0, 0.0625, 2.25]) for _ in range(rank)], "vecs": vecs,
                             "mu": [r.randint(-8, 8) / 8 for _ in range(dim)]}
-        if "lowrank" in c and r.random() < 0.35:
+        if "lowrank" in c and r.random() < 0.15:
+            # re-initialisation from a single gradient on a transformation that already has a
+            # low-rank part (Chain::set_position on an adapted chain)
+            c["ndraws"] = 2
+            c["retransform"] = {"regrad": True, "stds": [r.choice([-4.0, -1.0, 0.25, 0.5, 2.0, 9.0]) for _ in range(dim)],
+                                "mean": [r.randint(-8, 8) / 8 for _ in range(dim)]}
+        elif "lowrank" in c and r.random() < 0.4:
             # a full low-rank update between two trajectories; half of them carry a non-finite
             # eigenvalue and have to be rejected as a whole
             lr0 = c["lowrank"]
             vals2 = [r.choice([0.25, 4.0, 9.0, 0.0625, 2.25]) for _ in lr0["vals"]]
-            if vals2 and r.random() < 0.5:
+            vecs2 = lr0["vecs"]
+            if vals2 and r.random() < 0.25:
+                # a window without any eigenvalue outside the cutoff: the update has rank 0 and the
+                # previous low-rank part must be gone afterwards
+                vals2, vecs2 = [], []
+            elif vals2 and r.random() < 0.5:
                 vals2[r.randrange(len(vals2))] = None
             c["ndraws"] = 2
             c["retransform"] = {"stds": [r.choice([0.5, 1.0, 2.0, 1.5, 0.25, 3.0]) for _ in range(dim)],
                                 "mean": [r.randint(-8, 8) / 8 for _ in range(dim)],
-                                "lowrank": {"vals": vals2, "vecs": lr0["vecs"], "mu": [r.randint(-8, 8) / 8 for _ in range(dim)]}}
+                                "lowrank": {"vals": vals2, "vecs": vecs2, "mu": [r.randint(-8, 8) / 8 for _ in range(dim)]}}
         elif "lowrank" not in c and r.random() < 0.35 and dim >= 1:
             # the adaptation replaces the transformation between two trajectories: the second draw
             # starts from a state that was computed under the old one
@@ -135,6 +146,8 @@ def step_exprs(c, o, max_steps):
         return exprs, meta
     for kdraw, d in enumerate(o["draws"]):
         if not d.get("init"):
+            continue
+        if kdraw >= 1 and (c.get("retransform") or {}).get("regrad"):
             continue
         lr = lowrank_expr(c, kdraw)
         pts = {0: d["init"]}
@@ -257,9 +270,46 @@ def oracle_micro(c, d):
     return bad
 
 
+def oracle_energy_only(c, p):
+    e = b2f(p["kinetic"]) - (b2f(p["logp"]) + b2f(p["logdet"]))
+    if abs(b2f(p["energy"]) - e) > 1e-9 * (1 + abs(e)):
+        return ["energy %r is not kinetic - (logp + logdet) = %r" % (b2f(p["energy"]), e)]
+    return []
+
+
+def oracle_params(c, d, kdraw):
+    """what the transformation reports about itself is consistent: reciprocal scales, the
+    log-determinant is that of the reported diagonal and low-rank parts, and it is the one the
+    trajectory's points carry"""
+    tp = d.get("transform_params")
+    if not tp:
+        return []
+    bad = []
+    stds = [b2f(x) for x in tp["stds"]]
+    inv = [b2f(x) for x in tp["inv_stds"]]
+    for i, (a, b) in enumerate(zip(stds, inv)):
+        if abs(a * b - 1.0) > 1e-12:
+            bad.append("draw %d: scale %r and inverse scale %r of coordinate %d are not reciprocal" % (kdraw, a, b, i))
+            return bad
+    want = -sum(math.log(s_) for s_ in stds)
+    if tp.get("sqrt_eigs"):
+        want -= sum(math.log(b2f(x)) for x in tp["sqrt_eigs"])
+    got = b2f(tp["logdet"])
+    if abs(got - want) > 1e-9 * (1 + abs(want)):
+        bad.append("draw %d: the transformation reports log-determinant %r; its diagonal scales and %d retained eigenvalues give %r" % (
+            kdraw, got, len(tp.get("sqrt_eigs") or []), want))
+    for p in [d.get("init")] + [lf for lf in d["leapfrogs"] if not lf["diverged"]][:4]:
+        if p and abs(b2f(p["logdet"]) - got) > 1e-9 * (1 + abs(got)):
+            bad.append("draw %d: a trajectory state carries log-determinant %r, the transformation in force reports %r" % (kdraw, b2f(p["logdet"]), got))
+            break
+    return bad
+
+
 def oracle_point(c, p, kdraw=0, init=None):
     """implementation-side consistency of one logged point: logdet, energy, index"""
     bad = []
+    if kdraw >= 1 and (c.get("retransform") or {}).get("regrad"):
+        return bad + oracle_energy_only(c, p)
     sig_, _, lr_ = transform3(c, kdraw)
     logdet = -sum(math.log(s) for s in sig_)
     if init is not None and p.get("initial_energy") is not None:
@@ -307,7 +357,7 @@ def run(ctx):
         exprs += e
         meta += m
         for kdraw, d in enumerate(o["draws"]):
-            rb = oracle_reversible(c, d)
+            rb = oracle_reversible(c, d) + oracle_params(c, d, kdraw)
             if c["kind"] == "microcanonical":
                 rb = rb + oracle_micro(c, d)
             if rb and nb < 3:
